@@ -15,19 +15,21 @@ STRATA = [
     ("threshold", 500, 8000),
     ("planted", 40, 600),
     ("mid", 400, 6000),
+    ("aliased", 6000, 60000),
     ("cp-cnf", 400, 6000),
     ("enum", 1500, 25000),
     ("assume", 800, 12000),
     ("tuning", 500, 8000),
     ("reduce", 0, 3),
     ("reduce-planted", 6, 64),
+    ("long-run", 4, 32),
     ("suite", 0, 1),
     ("enum-reduce", 16, 64),
 ]
 REQUIRED_EVENTS = {"any": ["l2.reduce_db-above-threshold", "l2.learned-vs-known-model", "c01.models-checked", "c01.distinctness-checked", "l2.analyze", "l2.unassign_to", "l2.learned-checked"],
                    "thorough": ["c01.models-checked", "c01.distinctness-checked", "l2.analyze", "l2.unassign_to",
                                 "l2.learned-checked", "l2.reduce_db", "l2.reduce_db-with-blocking"]}
-BATCH = {"reduce": 1, "reduce-planted": 1, "enum-reduce": 1, "planted": 5}
+BATCH = {"reduce": 1, "reduce-planted": 1, "long-run": 1, "enum-reduce": 1, "planted": 5}
 
 setup = sc.setup
 gen = sc.gen
